@@ -44,9 +44,9 @@ CHECKS.update({
         "note": "Trusted: Coq kernel + vm_compute, the Go harness (stepwise copy of Deploy's render sequence cross-checked by running the real Deploy), the Python generator as ground-truth oracle. YAML/CEL/template execution are oracles of the model. Map iteration orders are sampled, not enumerated.",
     },
     "C17": {
-        "technique": "Coq theorems over all probe lists, objects and CEL oracles (conjunction law, unselected pass, all failures reported, stale never passes, fieldsEqual missing fails, CEL boolean); one clause refuted with witness + partial variants; differential correspondence of the real internal/probing.Parse and pkg/probing with a clause-wise monitor proved sound",
-        "text": "props/C17.v proves the composition laws of Parse for every input. The real Parse, ParseProbes and ParseSelector are run on generated probe lists x unstructured objects (malformed shapes, stale/float/string observedGeneration) and compared with the model in Coq; purity checked by deep comparison. The per-condition staleness clause is refuted for duplicate condition types (known finding, replayed on the real code).",
-        "note": "Trusted: Coq kernel + vm_compute; Go harness (message-to-reason table, index attribution); Python generator/printer. CEL evaluation is an oracle filled from the real NewCELProbe. monitor_sound assumes distinct condition types.",
+        "technique": "Coq theorems over all probe lists, objects and CEL oracles (conjunction law, unselected pass, all failures reported, stale never passes, fieldsEqual missing fails, CEL boolean); per-condition staleness proved in full after fix 9b2e4f3 (old shape kept as a v0 refutation); differential correspondence of the real internal/probing.Parse and pkg/probing with a clause-wise monitor proved sound",
+        "text": "props/C17.v proves the composition laws of Parse for every input. The real Parse, ParseProbes and ParseSelector are run on generated probe lists x unstructured objects (malformed shapes, stale/float/string observedGeneration) and compared with the model in Coq; purity checked by deep comparison. The per-condition staleness clause was refuted for duplicate condition types before fix 9b2e4f3 and is now proved without hypothesis.",
+        "note": "Trusted: Coq kernel + vm_compute; Go harness (message-to-reason table, index attribution); Python generator/printer. CEL evaluation is an oracle filled from the real NewCELProbe.",
     },
     "C20": {
         "technique": "Coq theorems over all step sequences of the two-critical-section state machine of RequestManager (induction over the schedule) + differential correspondence of the real RequestManager.Pull driven through linearised schedules (scripted gated pull, accessor under the lock), monitor proved sound; aliasing probed by mutating every returned Files map; -race sample in thorough",
@@ -99,7 +99,7 @@ CHECKS.update({
     },
     "C18": {
         "technique": "Coq theorems over an executable model of one ObjectTemplate controller pass (arbitrary render functions, kind tables, pre-states, lifted to all histories) + step-by-step differential correspondence of the real ObjectTemplate controllers (recording API server, real dynamiccache.Cache with scripted informers, real EnqueueWatchingObjects), monitor proved sound",
-        "text": "Every clause is proved per pass for arbitrary pre-states and every history (props/C18.v): writes equal the render of the values read in that pass; required-missing / unparsable / out-of-namespace leave the target unwritten with Invalid; optional-missing requeues; deletion frees then removes the finalizer; successful passes leave the template watching every source kind. The namespace clause was refuted for the code before fix aa47ee3.",
+        "text": "Every clause is proved per pass for arbitrary pre-states and every history (props/C18.v): writes equal the render of the values read in that pass; required-missing / unparsable / out-of-namespace leave the target unwritten with Invalid; optional-missing requeues; deletion frees then removes the finalizer; successful passes leave the template watching every source kind. The namespace clause is proved in full (refutation against the check before aa47ee3 kept as C18_v0_*); malformed source items and conditions (former C19 panics) are modelled as error classes.",
         "note": "Trusted: Coq kernel + vm_compute; harness (abstraction functions, Store + namespace wrapper, scripted informer); Python driver. Pass-granular interleavings; cache in sync (C12); event delivery and queue->Reconcile are runtime.",
     },
     "C19": {
